@@ -176,6 +176,34 @@ def main(argv=None):
                 if f["success"] and res["status"] in ("verified", "failed"):
                     discharged += 1
 
+    # Kani side (function contract on the real function, loop-free full-domain harnesses on a scratch copy)
+    kani_res = None
+    if cfg.get("kani") == "ids":
+        from . import kani as K
+        kani_res = K.run_ids(REPO)
+        solver_time["IDS(kani)"] = dict(wall_s=round(kani_res.get("wall_s", 0), 2), cbmc_s={h: r.get("time_s") for h, r in kani_res.get("harnesses", {}).items()})
+        obligations += kani_res["obligations"]
+        discharged += kani_res["discharged"]
+        clause_ids.extend(["ids.id_to_derived.same_id", "ids.static.<78 statics>", "ids.pinned.<78 statics>"])
+        for x in kani_res["undecided"]:
+            undecided.append(dict(unit="IDS(kani)", **x))
+        for f in kani_res["failures"]:
+            w = None
+            for cid in f.get("counterexample_ids", []):
+                try:
+                    from .rac import Rac
+                    rc_ = Rac(REPO)
+                    a = rc_.ask({"cmd": "derived_id", "id": cid})
+                    rc_.close()
+                    if a.get("decoded") and a.get("id_back") != cid:
+                        w = dict(derived_id=cid, query=f"decode Unit::Derived({cid}) from CBOR and encode it again", expected=str(cid), actual=str(a.get("id_back")), answer=a)
+                        break
+                except Exception:
+                    pass
+            violations.append(dict(unit="IDS(kani)", obligation=f["obligation"], kind="Kani: FAILURE", site="src/generated/ids.rs", clause=None,
+                                   rendered=f"harness {f['harness']}: failed check {f['detail']}; counterexample ids {f.get('counterexample_ids')}", witness=w, own_witness=True))
+        functions_under_contract.append(dict(unit="IDS(kani)", file="src/generated/ids.rs", item="fn id_to_derived (annotated in place in a scratch copy, #[kani::ensures])", kind="fn"))
+
     # bounded stand-ins / witness search (E2)
     standin_report = None
     standin_viol = []
@@ -199,8 +227,8 @@ def main(argv=None):
     rc = 0
     out_lines = []
     for i, v in enumerate(violations):
-        witness = None
-        if standin_viol:
+        witness = v.get("witness")
+        if witness is None and standin_viol and not v.get("own_witness"):
             witness = standin_viol[0]
         rp = os.path.join(REPLAY, f"{prop}-{_slug(v['obligation'])}.json")
         payload = dict(property=prop, obligation=v["obligation"], kind=v["kind"], site=v["site"], unit=v["unit"],
@@ -240,14 +268,16 @@ def main(argv=None):
     trusted_base = P.trusted_base(prop, trusted_items, rules, includes)
     coverage = dict(
         obligations=obligations, discharged=discharged,
-        checker_cmd=f"verus build/<unit>.rs --output-json --time --multiple-errors 20 (units: {', '.join(cfg['units'])}; regenerated from {REPO} on this run) + canary run per unit",
+        checker_cmd=(f"verus build/<unit>.rs --output-json --time --multiple-errors 20 (units: {', '.join(cfg['units'])}; regenerated from {REPO} on this run) + canary run per unit" if cfg["units"] else "")
+                    + (("; " if cfg["units"] else "") + kani_res.get("cmd", "cargo kani") + " (on a scratch copy of the working tree, contract attribute + harness module appended to src/generated/ids.rs; canary harness must fail)" if kani_res else ""),
         trusted_base=trusted_base,
         clause_ids=sorted(set(clause_ids)),
         property_lemmas=sorted(set(lemma_ids)),
         functions_under_contract=functions_under_contract,
         assumed_items=trusted_items,
         rewrites_applied=_rule_summary(rules),
-        backend="Verus 0.2026.09.13 (Z3 bundled)",
+        backend="Verus 0.2026.09.13 (Z3 bundled)" + ("; Kani 0.68.0 / CBMC 6.11 (function contract + loop-free full-domain harnesses)" if kani_res else ""),
+        kani=dict(cmd=kani_res.get("cmd"), harnesses=kani_res.get("harnesses"), statics=kani_res.get("statics")) if kani_res else None,
         solver_time_s=solver_time,
         slow_functions=fn_results[:20],
         canary=dict(functions_that_correctly_failed=len(set(canary_ok))),
